@@ -11,19 +11,30 @@ import sys
 sys.path.insert(0, os.path.dirname(os.path.dirname(os.path.abspath(__file__))))
 from checks import grammar_cfgs as g  # noqa: E402
 
-# focus -> (MaxNodes quick, MaxNodes thorough, replacement classes at every position in the thorough tier?)
+# focus -> (MaxNodes quick, MaxNodes thorough).  quick: two replacement classes per position (about 50 faults per module);
+# thorough: every class of RepSeq at every position (about 330 faults per module), hence nearly the same bounds
 FOCI = {
-    "decls": (4, 7), "loose": (6, 6), "types": (6, 8), "flat": (5, 8), "nest": (6, 8), "exprs": (6, 8), "ops": (5, 6),
-    "lists": (5, 7), "commas": (5, 6), "args": (6, 8), "conds": (6, 8), "atoms": (3, 5), "casts": (6, 8), "elseif": (11, 15),
-    "steps": (5, 7), "long": (8, 10), "undoc": (5, 5),
+    "decls": (4, 4), "loose": (6, 6), "types": (6, 6), "flat": (5, 5), "nest": (6, 7), "exprs": (6, 6), "ops": (5, 6),
+    "lists": (5, 5), "commas": (5, 5), "args": (6, 7), "conds": (6, 6), "atoms": (4, 4), "casts": (6, 7), "elseif": (11, 15),
+    "steps": (5, 6), "long": (8, 9), "undoc": (5, 5),
 }
+# the literal spellings of the atoms focus are the subject of C09 / C14 / C16, not of the grammar
+OVERRIDES = {"atoms": dict(IntLits="<- IntLits_two", CharLits="<- CharLits_one", StrLits="<- StrLits_one", PrimTypes=["u8", "bool"],
+                                 Builtins=["print", "abort"], Addrs=g.nset([0, 2]), CmpOps=["==", "<="], Files="<- Files_one")}
+# not run in the quick tier: operator spellings and long argument lists add no token class and no grammar position
+QUICK_SKIP = {"ops", "args"}
 # derives only modules the recogniser must call `unc` (|&x|): checked with its own invariant
 UNC_FOCI = {"undoc"}
+
+
+def foci(tier):
+    return [f for f in FOCI if not (tier == "quick" and f in QUICK_SKIP)]
 
 
 def config(focus, tier):
     cfg = g.config(focus, "quick" if tier == "quick" else "thorough")
     cfg["MaxNodes"] = min(cfg["MaxNodes"], FOCI[focus][0 if tier == "quick" else 1])
+    cfg.update(OVERRIDES.get(focus, {}))
     return cfg
 
 
